@@ -159,6 +159,27 @@ def replay_from_file(inputs, clause):
             R.Network.fromFile(p, useCache=False, writeCache=False, tolerance=0.05)
             if not calls:
                 return "fromFile(useCache=False) did not parse the map"
+            # the four combinations of the two switches on a fresh copy
+            for use in (False, True):
+                for write in (False, True):
+                    with tempfile.TemporaryDirectory() as d2:
+                        q = os.path.join(d2, "n.xodr")
+                        shutil.copy(maps[0], q)
+                        cache = os.path.join(d2, "n.snet")
+                        del calls[:]
+                        R.Network.fromFile(q, useCache=use, writeCache=write, tolerance=0.05)
+                        if not calls:
+                            return f"fromFile(useCache={use}, writeCache={write}) without any cache did not parse the map"
+                        if os.path.exists(cache) != write:
+                            return f"fromFile(useCache={use}, writeCache={write}): cache file {'written' if os.path.exists(cache) else 'not written'}"
+                        if write:
+                            stamp = open(cache, "rb").read()
+                            del calls[:]
+                            R.Network.fromFile(q, useCache=use, writeCache=False, tolerance=0.05)
+                            if bool(calls) == use:
+                                return f"fromFile(useCache={use}) with a matching cache present {'re-parsed the map' if calls else 'used the cache'}"
+                            if open(cache, "rb").read() != stamp:
+                                return "fromFile(writeCache=False) rewrote the cache file"
         finally:
             R.Network.fromOpenDrive = classmethod(orig_od)
     return None
@@ -192,6 +213,8 @@ def replay_find_point(inputs, clause):
             return shapely.geometry.box(-1 - i, -1, 1, 1)
         if state == "near":
             return shapely.geometry.box(0.25, -1 - i, 2, 1)
+        if state == "corner":  # 0.57 away (tolerance 0.5), but inside the square [-0.5, 0.5]^2 around the point
+            return shapely.geometry.box(0.4, 0.4, 2 + i, 2)
         return shapely.geometry.box(50 + i, 50, 51 + i, 51)
 
     elems = [E(f"e{i}", poly(s, i)) for i, s in enumerate(states)]
@@ -230,8 +253,76 @@ def replay_hash(inputs, clause):
         m[k] = v
         if deterministicHash(m) == h:
             return f"deterministicHash ignores option {k}"
+    for a, b in (({"opt": 0}, {"opt": False}), ({"opt": False}, {}), ({"opt": ""}, {"opt": 0.0}), ({"opt": 0, "z": 1}, {"z": 1}), ({"opt": None}, {})):
+        if deterministicHash(a) == deterministicHash(b):
+            return f"deterministicHash gives the same digest for the different option sets {a} and {b}"
     if deterministicHash({"a": "x", "b": "y"}) == deterministicHash({"a": "x\0Kb\0Vy"}):
         pass  # NUL inside a string value: outside the stated domain (documented in the contract note)
+    return None
+
+
+def replay_dump_pickle(inputs, clause):
+    """Real dumpPickle on a real (small) Network-like object, then the header is read back byte by byte."""
+    _fast()
+    import os
+    import struct
+    import tempfile
+
+    from scenic.domains.driving.roads import Network
+
+    digest, opt = bytes(range(64)), bytes(range(100, 108))
+    net = Network.__new__(Network)
+    net.__dict__.update(elements={}, lanes=(), intersections=())
+    with tempfile.TemporaryDirectory() as d:
+        p = os.path.join(d, "m.snet")
+        try:
+            Network.dumpPickle(net, p, digest, opt)
+        except Exception as e:
+            return f"dumpPickle raised {type(e).__name__}: {e}"
+        raw = open(p, "rb").read()
+        want = struct.pack("<I", Network._currentFormatVersion())
+        if raw[:4] != want:
+            return f"cache file starts with {raw[:4]!r}, the format version field should be {want!r}"
+        if raw[4:68] != digest:
+            return "bytes 4..67 of the cache file are not the map digest"
+        if raw[68:76] != opt:
+            return "bytes 68..75 of the cache file are not the options digest"
+        if raw[76:78] != b"\x1f\x8b":
+            return "the compressed pickle does not start right after the 76-byte header"
+        try:
+            Network.fromPickle(p, originalDigest=digest, optionsDigest=opt)
+        except Exception as e:
+            return f"fromPickle refuses the file dumpPickle wrote for the same digests: {type(e).__name__}: {e}"
+        for od, oo, what in ((bytes(64), opt, "map digest"), (digest, bytes(8), "options digest")):
+            try:
+                Network.fromPickle(p, originalDigest=od, optionsDigest=oo)
+            except Network.DigestMismatchError:
+                continue
+            except Exception as e:
+                return f"fromPickle with another {what}: {type(e).__name__} instead of DigestMismatchError"
+            return f"fromPickle accepted the cache for another {what}"
+    return None
+
+
+def replay_find_all(inputs, clause):
+    """Real _findPointInAll on three real regions placed around the point as in the model."""
+    _fast()
+    from scenic.core.regions import CircularRegion
+    from scenic.core.vectors import Vector
+    from scenic.domains.driving.roads import Network
+
+    tol = inputs.get("tolerance")
+    tol = float(tol) if isinstance(tol, (int, float)) else 0.5
+    net = Network.__new__(Network)
+    net.tolerance = tol
+    p = Vector(0, 0)
+    for dists in ((0, 0.3, 5), (0.3, 0.6, 5), (5, 6, 7), (0.3, 0, 0.2), (tol, 2 * tol + 1, 0)):
+        things = [CircularRegion(Vector(d + 1, 0), 1) for d in dists]  # distance from the point = d
+        got = net._findPointInAll(p, things)
+        inside = [t for t, d in zip(things, dists) if d == 0]
+        want = inside if inside else ([t for t, d in zip(things, dists) if d <= tol + 1e-9] if tol > 0 else [])
+        if [id(x) for x in got] != [id(x) for x in want]:
+            return f"_findPointInAll with regions at distances {dists} and tolerance {tol} returned those at {[dists[things.index(x)] for x in got]}, expected {[dists[things.index(x)] for x in want]}"
     return None
 
 
@@ -371,6 +462,7 @@ def register(reg):
             post=post_dp,
             inline=["Network._currentFormatVersion"],
             raises=[C.Raises("Exception", mode="may")],
+            replay=replay_dump_pickle,
             note="the header written is exactly the one fromPickle accepts for the same digests (same layout predicate in both contracts)",
             properties=("C20",),
         )
@@ -486,6 +578,8 @@ def register(reg):
             eng.check(f"{n}#rejected_cache_is_ignored_not_fatal", getattr(tr, "cache_state", None) in ("unpickling error", "digest mismatch"))
         else:
             eng.check(f"{n}#cache_skipped_only_if_disabled_or_absent", z3.Or(z3.Not(tobool(use)), z3.BoolVal(not tr.exists.get("map.snet", False))))
+        eng.check(f"{n}#useCache_False_never_reads_the_cache", z3.Or(tobool(use), z3.BoolVal(not fp)))
+        eng.check(f"{n}#writeCache_False_never_writes_a_cache", z3.Or(tobool(write), z3.BoolVal(not dumps)))
         okd = len(dumps) == 1 and dumps[0][1] == "map.snet" and dumps[0][2] is digest and dumps[0][3] is optd
         eng.check(f"{n}#new_cache_written_with_the_current_digests_iff_requested", z3.If(tobool(write), z3.BoolVal(okd), z3.BoolVal(not dumps)))
 
@@ -505,6 +599,7 @@ def register(reg):
 
     # ================================================================================ deterministicHash
     KINDS = ["int", "float", "bool", "str", "other"]
+    VALUES = [("int", 20), ("int", 0), ("float", 0.05), ("bool", False), ("str", "x"), ("str", ""), ("other", None)]
 
     def setup_dh(I, env):
         eng = I.eng
@@ -512,11 +607,9 @@ def register(reg):
         names = ["fill_gaps", "ref_points", "tolerance"][:n]
         perm = list(itertools.permutations(range(n)))
         order = perm[eng.choose(len(perm), "insertion order")]
-        kinds = [KINDS[eng.choose(len(KINDS), f"type of option {i}")] for i in range(n)]
-        vals = []
-        for i, k in enumerate(kinds):
-            v = PObj(k, tag=f"value{i}")
-            vals.append(v)
+        picks = [VALUES[eng.choose(len(VALUES), f"value of option {i}")] for i in range(n)]
+        kinds = [k for k, _ in picks]
+        vals = [v for _, v in picks]  # real Python values, the falsy ones of each type included
         m = PDict([(names[i], vals[i]) for i in order])
         log = []
         hasher = PObj("blake2b")
@@ -524,26 +617,17 @@ def register(reg):
         hasher.fields["digest"] = BuiltinFn("digest", lambda: Opaque("digest"))
         c = I.registry.contracts[f"{SER}:deterministicHash[separators]"]
 
-        class Text:
-            """str(x).encode(): the text of a key or value (abstract, NUL-free for the supported types)"""
-
-            def __init__(self, of):
-                self.of = of
-
         def str_(x=""):
-            t = PObj("str", tag=f"str({getattr(x, 'tag', x)})")
-            t.of = x
+            # str(x).encode(): the text of a key or value (abstract, NUL-free for the supported types)
+            t = PObj("str", tag=f"str({x!r})")
             t.fields["encode"] = BuiltinFn("encode", lambda *a: ("text", x))
             return t
 
-        def isinstance_(x, cls):
-            if isinstance(x, PObj) and x.cls in KINDS:
-                return x.cls != "other"
-            raise PyvcError("isinstance on an unexpected value")
-
-        c.env.update({"hashlib": NativeModule("hashlib", {"blake2b": BuiltinFn("blake2b", lambda digest_size=64: hasher)}), "str": BuiltinFn("str", str_), "isinstance": BuiltinFn("isinstance", isinstance_), "sorted": BuiltinFn("sorted", lambda it, key=None: PList(sorted(I.iterate(it))))})
+        strfn = BuiltinFn("str", str_)
+        strfn.pytype = str  # still the type `str` for isinstance
+        c.env.update({"hashlib": NativeModule("hashlib", {"blake2b": BuiltinFn("blake2b", lambda digest_size=64: hasher)}), "str": strfn, "sorted": BuiltinFn("sorted", lambda it, key=None: PList(sorted(I.iterate(it))))})
         env.vars.update(mapping=m, digest_size=8, _log=log, _names=names, _vals=vals, _kinds=kinds)
-        eng.input_syms.append(("options", C.Const(None), [f"{names[i]}:{kinds[i]}" for i in order]))
+        eng.input_syms.append(("options", C.Const(None), [f"{names[i]}={vals[i]!r}" for i in order]))
 
     def post_dh(I, env, outcome):
         eng = I.eng
@@ -556,7 +640,7 @@ def register(reg):
         for i, nm in enumerate(sorted(names)):
             j = names.index(nm)
             want += [b"\0K", ("text", nm), b"\0V", ("text", vals[j]) if kinds[j] != "other" else b"\0"]
-        same = len(log) == len(want) and all((a == b) if isinstance(b, bytes) else (isinstance(a, tuple) and a[0] == "text" and a[1] is b[1] or (isinstance(a, tuple) and a[1] == b[1] and isinstance(b[1], str))) for a, b in zip(log, want))
+        same = len(log) == len(want) and all((a == b) if isinstance(b, bytes) else (isinstance(a, tuple) and a[0] == "text" and type(a[1]) is type(b[1]) and a[1] == b[1]) for a, b in zip(log, want))
         # the stream fed to the hasher is  (NUL K key NUL V value)*  over the keys sorted by their text, whatever the insertion order
         eng.check(f"{n}#stream.is_the_separator_encoding_of_the_options_sorted_by_key", same, detail=f"{log!r}")
 
@@ -604,13 +688,144 @@ def register(reg):
         key=f"{SER}:deterministicHash[separators]",
     )
 
+
+    # ================================================================================ deterministicHash, any number of options
+    # loop invariant over a symbolic-length sorted key list: after i keys the stream fed to the hasher is
+    #   (NUL K text(key_j) NUL V (text(value_j) | NUL))  for j < i
+    K_, V_, PH_ = -1, -2, -3
+    KT = z3.Function("key_text", z3.IntSort(), z3.IntSort())
+    VT = z3.Function("value_text", z3.IntSort(), z3.IntSort())
+    SUP = z3.Function("value_is_int_float_or_str", z3.IntSort(), z3.BoolSort())
+    VALF = z3.Function("value_code", z3.IntSort(), z3.IntSort())  # an arbitrary value: its truthiness is `code != 0`
+
+    def value_index(x):
+        if isinstance(x, SV) and z3.is_app(x.e) and x.e.decl().name() == "value_code":
+            return SV(x.e.arg(0))
+        return None
+
+    def shape(log, upto):
+        j = z3.Int("j!dh")
+        return z3.ForAll(
+            [j],
+            z3.Implies(
+                z3.And(j >= 0, j < upto),
+                z3.And(z3.Select(log, 4 * j) == K_, z3.Select(log, 4 * j + 1) == KT(j), z3.Select(log, 4 * j + 2) == V_, z3.Select(log, 4 * j + 3) == z3.If(SUP(j), VT(j), PH_)),
+            ),
+        )
+
+    class ArrT(C.Type):
+        def fresh(self, eng, name, I=None):
+            return eng.fresh_array(name)
+
+    def setup_dhn(I, env):
+        eng = I.eng
+        keys = C.ObjSeq("option key", {}, kind="list").fresh(eng, "sorted_keys", I)
+        hasher = PObj("blake2b", tag="hasher")
+        hasher.fields["n"] = 0
+        hasher.fields["log"] = eng.fresh_array("stream")
+
+        def code(b):
+            if isinstance(b, bytes):
+                return {b"\0K": K_, b"\0V": V_, b"\0": PH_}.get(b)
+            if isinstance(b, tuple) and b[0] == "keytext":
+                return KT(tonum(b[1]))
+            if isinstance(b, tuple) and b[0] == "valtext":
+                return VT(tonum(b[1]))
+            return None
+
+        def update(b):
+            c_ = code(b)
+            if c_ is None:
+                raise PyvcError(f"hasher.update with unexpected data {b!r}")
+            n = hasher.fields["n"]
+            hasher.fields["log"] = z3.Store(hasher.fields["log"], tonum(n), c_)
+            hasher.fields["n"] = n + 1 if isinstance(n, int) else SV(tonum(n) + 1)
+
+        hasher.fields["update"] = BuiltinFn("update", update)
+        hasher.fields["digest"] = BuiltinFn("digest", lambda: Opaque("digest"))
+        mapping = PObj("Mapping", tag="options")
+        mapping.fields["keys"] = BuiltinFn("keys", lambda: Opaque("key view"))
+
+        def index_of(key):
+            ident = getattr(key, "ident", None)
+            if ident is None:
+                raise PyvcError("a key that is not an element of the sorted key list")
+            return ident[1]
+
+        def str_(x=""):
+            t = PObj("str")
+            if value_index(x) is not None:
+                t.fields["encode"] = BuiltinFn("encode", lambda *a: ("valtext", value_index(x)))
+            else:
+                t.fields["encode"] = BuiltinFn("encode", lambda *a: ("keytext", index_of(x)))
+            return t
+
+        strfn = BuiltinFn("str", str_)
+        strfn.pytype = str
+
+        def getitem(I_, obj, idx):
+            if obj is mapping:
+                return SV(VALF(tonum(index_of(idx))))  # any value, falsy ones included
+            raise PyvcError(f"subscript of {obj!r} not modelled")
+
+        I.registry.getitem_fallback = getitem
+
+        def isinstance_(x, cls):
+            if value_index(x) is not None:
+                return SV(SUP(tonum(value_index(x))))
+            raise PyvcError("isinstance on an unexpected value")
+
+        c = I.registry.contracts[f"{SER}:deterministicHash[any-number-of-options]"]
+        c.env.update(
+            {
+                "hashlib": NativeModule("hashlib", {"blake2b": BuiltinFn("blake2b", lambda digest_size=64: hasher)}),
+                "str": strfn,
+                "isinstance": BuiltinFn("isinstance", isinstance_),
+                "sorted": BuiltinFn("sorted", lambda it, key=None: keys),
+            }
+        )
+        env.vars.update(mapping=mapping, digest_size=8, _hasher=hasher, _keys=keys)
+
+    def inv_stream(ctx):
+        h = ctx.env.lookup("hasher")
+        i = ctx.env.lookup("_i")
+        return SV(z3.And(tonum(h.fields["n"]) == 4 * tonum(i), shape(h.fields["log"], tonum(i))))
+
+    def post_dhn(I, env, outcome):
+        eng = I.eng
+        n = "serialization.deterministicHash"
+        if outcome[0] != "return":
+            eng.check(f"{n}#any_number_of_options.no_exception", False, detail=_exc_name(outcome[1]))
+            return
+        h, keys = env.vars["_hasher"], env.vars["_keys"]
+        N = tonum(keys.length)
+        eng.check(f"{n}#any_number_of_options.stream_has_four_items_per_option", tonum(h.fields["n"]) == 4 * N)
+        eng.check(f"{n}#any_number_of_options.stream_is_the_separator_encoding_of_all_options_in_sorted_order", shape(h.fields["log"], N))
+
+    reg.add(
+        C.Contract(
+            f"{SER}:deterministicHash",
+            params=dict(mapping=C.Const(None), digest_size=C.Const(None)),
+            setup=setup_dhn,
+            post=post_dhn,
+            loops={1: dict(invariants={"stream_so_far_is_the_encoding_of_the_keys_done": inv_stream}, modifies={"hasher.n": C.Int(), "hasher.log": ArrT(), "value": None})},
+            raises=[C.Raises("Exception", mode="may")],
+            replay=replay_hash,
+            note="symbolic number of options: `sorted(mapping.keys(), key=str)` is an abstract list of symbolic length (trusted: it is the keys sorted by their text, independent of the insertion order -- "
+            "the call itself is checked concretely by the [separators] contract); texts are uninterpreted functions of the position, support of a value type a symbolic predicate",
+            properties=("C20", "C18"),
+        ),
+        key=f"{SER}:deterministicHash[any-number-of-options]",
+    )
+
     # ================================================================================ findPointIn
-    STATES = ["none", "near", "exact"]
+    # "corner": farther than the tolerance but inside the axis-parallel square of half-width tolerance around the point
+    STATES = ["none", "near", "exact", "corner"]
     ORDERS = [[0, 1, 2], [2, 0, 1], [1, 2], [2], []]
 
     def setup_fpi(I, env):
         eng = I.eng
-        states = [STATES[eng.choose(3, f"element {i}: misses / within tolerance / contains the point")] for i in range(3)]
+        states = [STATES[eng.choose(4, f"element {i}: misses / within tolerance / contains the point / only inside the bounding square")] for i in range(3)]
         order = ORDERS[eng.choose(len(ORDERS), "priority list")]
         tolpos = eng.choose(2, "tolerance > 0?") == 1
         reject = [False, True, "message"][eng.choose(3, "reject")]
@@ -628,6 +843,8 @@ def register(reg):
                 self.d = d
 
         pt = PObj("shapely Point", tag="point")
+        px, py = eng.fresh_real("point.x"), eng.fresh_real("point.y")
+        pt.fields.update(x=px, y=py)
         pt.fields["buffer"] = BuiltinFn("buffer", lambda d: ("buffered", d))
 
         def query(target, predicate=None):
@@ -636,6 +853,9 @@ def register(reg):
                 return PList([i for i in range(3) if states[i] == "exact"])
             if isinstance(target, tuple) and target[0] == "buffered":
                 return PList([i for i in range(3) if states[i] in ("exact", "near")])
+            if isinstance(target, tuple) and target[0] == "box":
+                # an axis-parallel box around the point: contains the disc inscribed in it and reaches into its corners
+                return PList([i for i in range(3) if states[i] in ("exact", "near", "corner")])
             raise PyvcError("query with an unexpected geometry")
 
         rtree = PObj("STRtree")
@@ -643,7 +863,7 @@ def register(reg):
         self = PObj(_network_cls(), tag="network")
         self.fields.update(tolerance=tol, _rtree=rtree, _uidForIndex=tuple(e.fields["uid"] for e in elems))
         c = I.registry.contracts[f"{NET}.findPointIn"]
-        c.env.update({"shapely": NativeModule("shapely", {"geometry": NativeModule("shapely.geometry", {"Point": BuiltinFn("Point", lambda v: pt)})}), "_toVector": BuiltinFn("_toVector", lambda p: p)})
+        c.env.update({"shapely": NativeModule("shapely", {"geometry": NativeModule("shapely.geometry", {"Point": BuiltinFn("Point", lambda v: pt), "box": BuiltinFn("box", lambda *a: ("box",) + tuple(a))}), "box": BuiltinFn("box", lambda *a: ("box",) + tuple(a))}), "_toVector": BuiltinFn("_toVector", lambda p: p)})
         env.vars.update(self=self, point=Opaque("point"), elems=PList([elems[i] for i in order]), reject=reject, _elems=elems, _states=states, _order=order, _tolpos=tolpos, _queries=queries, _tol=tol)
         eng.input_syms.append(("states", C.Const(None), states))
         eng.input_syms.append(("elems", C.Const(None), order))
@@ -660,7 +880,7 @@ def register(reg):
         qs = env.vars["_queries"]
         eng.check(f"{n}#rtree_queries_use_the_intersects_predicate", all(p == "intersects" for _, p in qs))
         buffered = [t for t, _ in qs if isinstance(t, tuple)]
-        eng.check(f"{n}#tolerance_pass_buffers_by_exactly_the_tolerance", all(t[1] is env.vars["_tol"] for t in buffered))
+        eng.check(f"{n}#tolerance_pass_buffers_by_exactly_the_tolerance", all(t[0] == "buffered" and t[1] is env.vars["_tol"] for t in buffered), detail=f"query geometry {[t[0] for t in buffered]}")
         if outcome[0] == "raise":
             name = _exc_name(outcome[1])
             eng.check(f"{n}#rejects_only_when_asked_and_nothing_matches", name == "RejectionException" and want is None and bool(reject), detail=name)
@@ -710,6 +930,7 @@ def register(reg):
         c = I.registry.contracts[f"{NET}._findPointInAll"]
         c.env.update({"_toVector": BuiltinFn("_toVector", lambda p: p)})
         env.vars.update(self=self, point=Opaque("point"), things=PList(things), _things=things, _tol=tol)
+        eng.input_syms.append(("tolerance", C.Real(), tol))
 
     def post_all(I, env, outcome):
         eng = I.eng
@@ -735,6 +956,7 @@ def register(reg):
             setup=setup_all,
             post=post_all,
             raises=[C.Raises("Exception", mode="may")],
+            replay=replay_find_all,
             note="three candidate regions with symbolic containment / distance (containment implies distance 0)",
             properties=("C20",),
         )
